@@ -263,22 +263,46 @@ func randList(r *rand.Rand, gen func(*rand.Rand) string) []string {
 	return l
 }
 
-func randEnvCfg(r *rand.Rand) envCfg {
-	e := envCfg{da: r.Intn(2) == 0, ds: r.Intn(2) == 0, acc: randList(r, randDomain), rej: randList(r, randDomain),
-		sto: randList(r, randDomain), dis: randList(r, randDomain), ro: randList(r, randPattern)}
+func randEnvCfg(r *rand.Rand) envCfg { return randEnvCfgWith(r, randDomain) }
+
+// randListEntry: what an operator may write into ANY of the domain lists — mostly plain domains, but also entries with the wildcard
+// characters that only the reject-origin list gives a meaning to ("*.example.com", "*", "ex?mple.com").  In the accept / reject / store /
+// discard lists such an entry is a literal: it names the domain spelled exactly so (which no valid recipient domain is) and nothing else.
+func randListEntry(r *rand.Rand) string {
+	if r.Intn(10) < 3 {
+		return randPattern(r)
+	}
+	return randDomain(r)
+}
+
+// randEnvCfgW: every list may hold wildcard-shaped entries (used by C05's own legs; the other SMTP legs keep randEnvCfg and their streams).
+func randEnvCfgW(r *rand.Rand) envCfg { return randEnvCfgWith(r, randListEntry) }
+
+func randEnvCfgWith(r *rand.Rand, gen func(*rand.Rand) string) envCfg {
+	e := envCfg{da: r.Intn(2) == 0, ds: r.Intn(2) == 0, acc: randList(r, gen), rej: randList(r, gen),
+		sto: randList(r, gen), dis: randList(r, gen), ro: randList(r, randPattern)}
 	// the list that the default switch makes irrelevant must really be ignored: put the same domain on both sides
 	if r.Intn(3) == 0 {
-		d := randDomain(r)
+		d := gen(r)
 		e.acc, e.rej = append(e.acc, d), append(e.rej, recase(r, d))
 	}
 	if r.Intn(3) == 0 {
-		d := randDomain(r)
+		d := gen(r)
 		e.sto, e.dis = append(e.sto, d), append(e.dis, recase(r, d))
 	}
 	if r.Intn(6) == 0 && len(e.ro) > 0 {
 		e.acc = append(e.acc, strings.NewReplacer("*", "sub.q", "?", "z").Replace(e.ro[0]))
 	}
 	return e
+}
+
+// globInstances: domains that an entry WOULD name if its '*' and '?' were read as wildcards (nothing for a plain entry)
+func globInstances(entry string) []string {
+	if !strings.ContainsAny(entry, "*?") {
+		return nil
+	}
+	return []string{strings.NewReplacer("*", "sub.q", "?", "z").Replace(entry), strings.NewReplacer("*", "", "?", "a").Replace(entry),
+		strings.NewReplacer("*", "Mail.X", "?", "-").Replace(entry)}
 }
 
 func containsFold(l []string, d string) bool {
@@ -296,7 +320,7 @@ func c05Policy(c *core.Ctx) {
 	defer m.Close()
 	nCfg := c.Scale(1500, 30000)
 	for i := 0; i < nCfg; i++ {
-		e := randEnvCfg(r)
+		e := randEnvCfgW(r)
 		root, err := e.load()
 		if err != nil {
 			c.Note("config.Process error: %v", err)
@@ -334,6 +358,8 @@ func c05Policy(c *core.Ctx) {
 				if r.Intn(3) == 0 {
 					doms = append(doms, "x"+d, d+"x")
 				}
+				// an entry with wildcard characters in a recipient list names no other domain than itself
+				doms = append(doms, globInstances(d)...)
 			}
 		}
 		for _, p := range e.ro {
@@ -370,7 +396,9 @@ func c05Policy(c *core.Ctx) {
 			if is != wantS {
 				c.Fail("store-rule", cas, fmt.Sprintf("ShouldStoreDomain=%v documented rule=%v", is, wantS), "")
 			}
-			if io != wantO {
+			// (a sender domain never contains '*' — Props.C05.valid_domain_has_no_star; on such subjects MatchWithWildcards is not the glob,
+			// Props.C05.wild_wrong_on_star, which is why origin_rule carries that guard and the wild leg's glob oracle too)
+			if io != wantO && !strings.Contains(d, "*") {
 				c.Fail("origin-rule", cas, fmt.Sprintf("ShouldAcceptOriginDomain=%v documented rule=%v", io, wantO), "")
 			}
 			// oracle: case-insensitive in the address
@@ -379,6 +407,14 @@ func c05Policy(c *core.Ctx) {
 				c.Fail("case-insensitive-address", append(cas, "recased="+d2), "decision changed with letter case of the domain", "")
 			}
 			nontriv := containsFold(e.acc, d) || containsFold(e.rej, d) || containsFold(e.sto, d) || containsFold(e.dis, d) || !io
+			for _, l := range [][]string{e.acc, e.rej, e.sto, e.dis} {
+				for _, p := range l {
+					if strings.ContainsAny(p, "*?") && !strings.EqualFold(p, d) && refGlob([]rune(strings.ToLower(p)), []rune(strings.ToLower(d))) {
+						c.H("policy:domain-is-a-glob-instance-of-a-recipient-list-entry")
+						nontriv = true
+					}
+				}
+			}
 			c.Count("p|"+cl+"|"+d, nontriv)
 			c.H(fmt.Sprintf("policy accept=%v store=%v origin=%v", ia, is, io))
 		}
